@@ -1,4 +1,5 @@
 """U15 fd-table: OpenFiles algebra (brush-core/src/openfiles.rs)."""
+import re
 from vx.unit import Unit
 from vx.extract import C
 
@@ -145,6 +146,33 @@ def build(repo, findings):
         C('C10 failed-open-leaves-the-table', 'res is Err ==> final(params).open_files@ == old(params).open_files@'),
     ])
     u.add(rf)
+    # ---- `&> word` / `&>> word` / `>& word`: both standard streams to one file (whole function)
+    src.require_text(r'pub const STDOUT_FD: ShellFd = 1;', 'constant OpenFiles::STDOUT_FD')
+    src.require_text(r'pub const STDERR_FD: ShellFd = 2;', 'constant OpenFiles::STDERR_FD')
+    fn = 'setup_redirect_output_and_error_to'
+    oe = interp.item(r'^fn setup_redirect_output_and_error_to\(', fn).r1().r4()
+    oe.resub(r'shell\.absolute_path\(Path::new\(file_path\)\)', 'shell_absolute_path_str(shell, file_path)', 'R14', 'Shell::absolute_path(Path::new(s)) -> stub (resolution against the shell\'s directory)', count=None)
+    oe.resub(r'std::fs::File::options\(\)', 'new_open_options()', 'R14', 'File::options() -> the flag model with every flag false', count=None)
+    # the builder chain `o.a(x).b(y);` -> one call per statement (the model's setters return nothing)
+    mch = re.search(r'^([ \t]*)file_options((?:\s*\.\w+\([^()]*\))+);', oe.text, re.M)
+    if mch:
+        calls = re.findall(r'\.(\w+)\(([^()]*)\)', mch.group(2))
+        oe.replace(mch.group(0), '\n'.join('%sfile_options.%s(%s);' % (mch.group(1), nm, arg) for nm, arg in calls), 'R14', 'OpenOptions builder chain -> one setter call per statement')
+    oe.resub(r'shell\s*\.open_file\(&file_options, &abs_file_path, params\)\s*\.map_err\(\|err\| \{.*?\}\)\?', 'shell_open_file(shell, &file_options, &abs_file_path, &*params)?', 'R14', 'Shell::open_file(..).map_err(<message>)? -> stub with the same error path', flags=16)
+    oe.resub(r'OpenFiles::STDOUT_FD', '1', 'R10', 'constant resolved (value checked)', count=None)
+    oe.resub(r'OpenFiles::STDERR_FD', '2', 'R10', 'constant resolved (value checked)', count=None)
+    oe.sig(fn, ret='res', ensures=[
+        C('C10 both-streams-go-to-the-word-seen-from-the-shells-directory-appending-iff-asked', '''res is Ok ==> ({
+    let want = OpenOptions { write: true, create: true, truncate: !append, append: append, ..no_flags() };
+    &&& final(params).open_files@.contains_key(1) && final(params).open_files@[1] is Some
+    &&& final(params).open_files@.contains_key(2) && final(params).open_files@[2] is Some
+    &&& final(params).open_files@[1]->Some_0.opened_with() == want && final(params).open_files@[2]->Some_0.opened_with() == want
+    &&& final(params).open_files@[1]->Some_0.opened_path() == final(params).open_files@[2]->Some_0.opened_path()
+    &&& final(params).open_files@ == old(params).open_files@.insert(1, final(params).open_files@[1]).insert(2, final(params).open_files@[2])
+})'''),
+        C('C10 failed-open-leaves-the-table', 'res is Err ==> final(params).open_files@ == old(params).open_files@'),
+    ])
+    u.add(oe)
     # ---- here-string and here-document arms of setup_redirect (R6 block slices)
     ast.require_text(r'pub struct IoHereDocument \{(?:[^}]|\n)*?pub requires_expansion: bool,(?:[^}]|\n)*?pub doc: Word,', 'projection IoHereDocument')
     u.prelude('std/str_ops.rs')
@@ -179,8 +207,10 @@ def build(repo, findings):
     ex = u.source('brush-core/src/expansion.rs')
     if ex.has(r'^fn remove_line_continuations\('):
         rl = ex.item(r'^fn remove_line_continuations\(', 'remove_line_continuations').r1().r11()
+        rl.resub(r'\bs\.replace\(("[^"]*"), ("[^"]*")\)', r'str_replace_str(s, \1, \2)', 'R14', 'str::replace(&str, &str) -> stub (all matches, left to right)', count=None)
+        has_loop = 'for c in s.chars()' in rl.text
         rl.sig(ret='result', ensures=[C('C10 backslash-newline-removed-unless-the-backslash-is-escaped', 'result@ == remove_cont(s@)')])
-        rl.loop(0, iter_name='it', invariant=[
+        rl.loop(0, iter_name='it', optional=True, invariant=[
             C('aux', 'it.history@ + it.iter.remaining() == s@'),
             C('C10 scan-state', 'remove_cont(s@) == result@ + remove_cont_from(after_backslash, s@.skip(it.history@.len() as int))'),
         ], body_first='''proof {
@@ -192,7 +222,8 @@ def build(repo, findings):
     assert(rest0.skip(1) =~= s@.skip(n + 1));
     if rest0.len() >= 2 { assert(rest0.skip(1).skip(1) =~= rest0.skip(2)); assert(rest0.skip(1)[0] == rest0[1]); }
 }''')
-        rl.before_loop('remove_line_continuations', 0, 'proof { assert(result@ =~= Seq::<char>::empty()); assert(s@.skip(0) =~= s@); assert(Seq::<char>::empty() + remove_cont(s@) =~= remove_cont(s@)); }')
+        if has_loop:
+          rl.before_loop('remove_line_continuations', 0, 'proof { assert(result@ =~= Seq::<char>::empty()); assert(s@.skip(0) =~= s@); assert(Seq::<char>::empty() + remove_cont(s@) =~= remove_cont(s@)); }')
         u.add(rl)
         ex.require_text(r'let body = remove_line_continuations\(word_str\.as_ref\(\)\);\s*expander\.basic_expand_to_str\(body\.as_str\(\)\)', 'basic_expand_heredoc_word expands the body after removing line continuations')
     else:
